@@ -436,6 +436,68 @@ theorem library_roundtrip (l : Lib) (k : String) (m : MolRec) (hw : m.WF) (hno :
     rw [hget]
     cases h : l.get k' <;> simp [Ne.symm hne]
 
+/-! ### the bond sequence is a list, not a set -/
+
+/-- "bond sequence (endpoints, …)": a structure is a multigraph.  `MolRec.WF` asks nothing of the bond list beyond "endpoints are
+atoms of the structure", so every theorem above covers lists with repeated endpoint pairs (parallel bonds in either
+orientation, exact twins), self-bonds, and atoms without bonds; the round trip keeps the SEQUENCE - its length, its order,
+every pair of endpoints, one entry per stored bond. -/
+theorem bond_sequence_kept (m : MolRec) (hw : m.WF) :
+    (normMol m).bonds.length = m.bonds.length ∧
+    (normMol m).bonds.map (fun b => (b.get .a1, b.get .a2)) = m.bonds.map (fun b => (b.get .a1, b.get .a2)) := by
+  refine ⟨by simp [normMol], ?_⟩
+  simp only [normMol, List.map_map]
+  apply List.map_congr_left
+  intro b hb
+  have h := norm_bond_endpoints m.atoms.length b (hw.bonds b hb)
+  simp only [Function.comp, h.1, h.2.1]
+
+theorem bond_sequence_kept_ens (e : EnsRec) (hw : e.WF) :
+    (normEns e).bonds.length = e.bonds.length ∧
+    (normEns e).bonds.map (fun b => (b.get .a1, b.get .a2)) = e.bonds.map (fun b => (b.get .a1, b.get .a2)) := by
+  refine ⟨by simp [normEns], ?_⟩
+  simp only [normEns, List.map_map]
+  apply List.map_congr_left
+  intro b hb
+  have h := norm_bond_endpoints e.atoms.length b (hw.bonds b hb)
+  simp only [Function.comp, h.1, h.2.1]
+
+/-- three atoms; bonds 0-1, 1-0 (parallel, other orientation, other type), 0-1 again (an exact twin), 1-1 twice (self-bonds);
+atom 2 has no bond -/
+def mgAtom : AtomRec := AtomRec.ofList [.int 6, .nil, .str [67], .int 1, .int 0, .int 0, .int 0, .int 0, .map []]
+def mgBond (i j t : Int) : BondRec :=
+  BondRec.ofList [.int i, .int j, .str [100, 117, 112], .int t, .int 0, .f64 0x3ff0000000000000, .map []]
+def multigraph : MolRec :=
+  { name := .str [109], charge := .int 0, mult := .int 1, attrib := .map [],
+    atoms := [mgAtom, mgAtom, mgAtom], bonds := [mgBond 0 1 1, mgBond 1 0 2, mgBond 0 1 1, mgBond 1 1 1, mgBond 1 1 3],
+    coords := [[0, 0, 0], [0, 0, 0], [0, 0, 0]], charges := [0, 0, 0] }
+
+theorem multigraph_wf : multigraph.WF := by
+  refine ⟨rfl, ?_, rfl, ?_⟩
+  · intro r hr; simp [multigraph] at hr; subst hr; rfl
+  · intro b hb
+    simp only [multigraph, List.mem_cons, List.mem_nil_iff, or_false] at hb
+    rcases hb with rfl | rfl | rfl | rfl | rfl
+    · exact ⟨⟨0, 1, rfl, rfl, by decide, by decide⟩, ⟨_, rfl⟩⟩
+    · exact ⟨⟨1, 0, rfl, rfl, by decide, by decide⟩, ⟨_, rfl⟩⟩
+    · exact ⟨⟨0, 1, rfl, rfl, by decide, by decide⟩, ⟨_, rfl⟩⟩
+    · exact ⟨⟨1, 1, rfl, rfl, by decide, by decide⟩, ⟨_, rfl⟩⟩
+    · exact ⟨⟨1, 1, rfl, rfl, by decide, by decide⟩, ⟨_, rfl⟩⟩
+
+/-- all five bonds of the multigraph come back, in order -/
+example : ∃ r, deserMol deserMolV2 (N (serMol serMolV2 multigraph)) = .ok r ∧ r.bonds.length = 5 ∧
+    r.bonds.map (fun b => (b.get .a1, b.get .a2)) =
+      [(.int 0, .int 1), (.int 1, .int 0), (.int 0, .int 1), (.int 1, .int 1), (.int 1, .int 1)] := by
+  have hno : NoOther multigraph.atoms multigraph.bonds := by
+    constructor
+    · intro a ha; simp [multigraph] at ha; subst ha; rfl
+    · intro b hb
+      simp only [multigraph, List.mem_cons, List.mem_nil_iff, or_false] at hb
+      rcases hb with rfl | rfl | rfl | rfl | rfl <;> rfl
+  refine ⟨normMol multigraph, mol_v2_roundtrip multigraph multigraph_wf hno, ?_, ?_⟩
+  · rw [(bond_sequence_kept multigraph multigraph_wf).1]; rfl
+  · rw [(bond_sequence_kept multigraph multigraph_wf).2]; rfl
+
 /-! ### reading is a function of what is stored, not of what the caller did with earlier results -/
 
 /-- editing an object that was read earlier does not touch the library -/
